@@ -25,6 +25,11 @@ use crate::props::c09::{arb_msg, msg_tag_name, to_message, GMsg};
 use crate::refmodel::impl_utxo;
 use crate::world::*;
 
+thread_local! {
+    /// set when Block::generate (run by every node on every received block) panicked while the
+    /// harness assembled a block around a shaped transaction
+    static SHAPE_BUILD_PANIC: std::cell::Cell<bool> = std::cell::Cell::new(false);
+}
 const HONEST: u64 = 1;
 const HOSTILE: u64 = 2;
 const UNAUTH: u64 = 3;
@@ -40,6 +45,9 @@ pub enum Ev {
     BogusBlock { unauth: bool, payload: Payload },
     /// hostile transaction from the edit catalogue
     HostileTx { edit: u8 },
+    /// a correctly signed transaction of arbitrary shape (type x slip counts x slip types), see
+    /// `adversary::shape_tx`
+    ShapeTx { unauth: bool, code: u64 },
     /// raw undecodable bytes
     Garbage { unauth: bool, len: u8, seed: u8 },
     ConnEvent { which: u8 },
@@ -69,6 +77,9 @@ pub enum Payload {
     Empty,
     /// a signed transaction whose txs_replacements field is large (memory amplification)
     HugeReplacements,
+    /// a block that carries a transaction of arbitrary shape (`adversary::shape_tx`); whether it is
+    /// valid is not known in advance
+    ShapeTx(u64),
 }
 
 #[derive(Debug, Clone, Serialize, Deserialize, PartialEq, Eq, Hash)]
@@ -217,7 +228,12 @@ pub fn run_case(case: &Case, prefix: &Built) -> (Vec<(String, String)>, Info) {
                 let via = format!("fetched_block:{:?}", payload).split('(').next().unwrap().to_string();
                 let (tip_id, tip_hash) = n.tip();
                 // hostile block content built on the node's current tip by a builder holding the same chain
+                SHAPE_BUILD_PANIC.with(|c| c.set(false));
                 let bb = hostile_block(&builder, tip_hash, *payload, salt);
+                if SHAPE_BUILD_PANIC.with(|c| c.get()) {
+                    v.push(("C11|block_generate_panics|via=fetched_block:ShapeTx".into(), format!("step {step}: Block::generate (run on every received block before validation) panics on a block that carries the shaped transaction {:?}", payload)));
+                    break;
+                }
                 let mut valid_block: Option<Block> = None;
                 let (hash, id, buf) = match (&bb, payload) {
                     (_, Payload::Garbage) => ([salt as u8; 32], tip_id + 1, vec![0xAB; 300]),
@@ -261,6 +277,18 @@ pub fn run_case(case: &Case, prefix: &Built) -> (Vec<(String, String)>, Info) {
                         format!("step {step}: handling a fetched block of {buf_len} bytes allocated {peak} bytes at peak"),
                     ));
                 }
+                if let (Some((b, _)), Payload::ShapeTx(_)) = (&bb, payload) {
+                    // validity of a shaped block is not known in advance: if the node took it as its new
+                    // tip, the builder and the twin receive the same block (from the honest peer)
+                    if v.is_empty() && n.tip().1 == b.hash {
+                        let _ = block_on(builder.add(b.clone()));
+                        let _ = twin.n.net_event(NetworkEvent::IncomingNetworkMessage { peer_index: HONEST, buffer: Message::BlockHeaderHash(b.hash, b.id).serialize() });
+                        twin.n.take_fetches();
+                        let _ = twin.n.net_event(NetworkEvent::BlockFetched { block_hash: b.hash, block_id: b.id, peer_index: HONEST, buffer: b.serialize_for_net(BlockType::Full) });
+                        let _ = twin.n.pump();
+                        info.tags.insert("shaped_block_accepted".into());
+                    }
+                }
                 if let Some(b) = honest_copy {
                     // the twin got this valid block from the honest peer; so does the node (it may have
                     // ignored the hostile sender, e.g. because that connection was superseded)
@@ -281,6 +309,17 @@ pub fn run_case(case: &Case, prefix: &Built) -> (Vec<(String, String)>, Info) {
                     call!(n, format!("step {step}"), via, true, n.net_event(NetworkEvent::IncomingNetworkMessage { peer_index: HOSTILE, buffer: Message::Transaction(tx).serialize() }));
                     pump_all!(n, via, true);
                 }
+            }
+            Ev::ShapeTx { unauth, code } => {
+                info.hostile_events += 1;
+                let from = if *unauth { UNAUTH } else { HOSTILE };
+                let (tip_id, _) = n.tip();
+                let real = builder.spendable_of(&key(3).0, tip_id + 1).first().cloned();
+                let tx = shape_tx(*code, &key(7), real.as_ref(), 7_100_000 + salt);
+                let via = format!("shape_tx:{:?}:{}", tx.transaction_type, if *unauth { "unauthenticated" } else { "authenticated" });
+                info.tags.insert(format!("shaped_tx:{:?}:{}in:{}out", tx.transaction_type, tx.from.len().min(3), tx.to.len().min(3)));
+                call!(n, format!("step {step}"), via, true, n.net_event(NetworkEvent::IncomingNetworkMessage { peer_index: from, buffer: Message::Transaction(tx).serialize() }));
+                pump_all!(n, via, true);
             }
             Ev::Garbage { unauth, len, seed } => {
                 info.hostile_events += 1;
@@ -481,6 +520,26 @@ fn hostile_block(builder: &Node, tip_hash: SaitoHash, payload: Payload, salt: u6
             t.generate(&creator.0, 0, 0);
             block_on(builder.make_block_as(&creator, tip_hash, ts, vec![t], gt)).ok().map(|b| (b, false))
         }
+        Payload::ShapeTx(code) => {
+            let real = builder.spendable_of(&key(3).0, tb.id + 1).first().cloned();
+            let t = shape_tx(code, &key(7), real.as_ref(), ts);
+            let mut b = block_on(builder.make_block_as(&creator, tip_hash, ts, vec![carrier_tx(&creator, ts)], gt)).ok()?;
+            b.transactions.push(t);
+            // Block::generate is the routine every node runs on a received block; should it not be
+            // total on this shape, the block cannot be built here and the case is skipped (counted)
+            let r = std::panic::catch_unwind(std::panic::AssertUnwindSafe(|| {
+                let mut b = b;
+                re_sign(&mut b, &creator, true);
+                b
+            }));
+            match r {
+                Ok(b) => Some((b, true)),
+                Err(_) => {
+                    SHAPE_BUILD_PANIC.with(|c| c.set(true));
+                    None
+                }
+            }
+        }
         Payload::HeaderLie(e) => {
             let mut b = block_on(builder.make_block_as(&creator, tip_hash, ts, vec![carrier_tx(&creator, ts)], gt)).ok()?;
             let applied = apply_block_edit(&mut b, BLOCK_EDITS[e as usize % BLOCK_EDITS.len()], &creator, tb.difficulty);
@@ -520,6 +579,7 @@ pub fn arb_payload() -> impl Strategy<Value = Payload> {
         4 => Just(Payload::WrongBlock),
         4 => Just(Payload::Empty),
         1 => Just(Payload::HugeReplacements),
+        6 => any::<u64>().prop_map(Payload::ShapeTx),
     ]
 }
 
@@ -529,6 +589,7 @@ pub fn arb_ev() -> impl Strategy<Value = Ev> {
         1 => (any::<bool>(), 0u8..20).prop_map(|(unauth, n)| Ev::KeyListFlood { unauth, n }),
         4 => (any::<bool>(), arb_payload()).prop_map(|(unauth, payload)| Ev::BogusBlock { unauth, payload }),
         2 => any::<u8>().prop_map(|edit| Ev::HostileTx { edit }),
+        3 => (any::<bool>(), any::<u64>()).prop_map(|(unauth, code)| Ev::ShapeTx { unauth, code }),
         1 => (any::<bool>(), any::<u8>(), any::<u8>()).prop_map(|(unauth, len, seed)| Ev::Garbage { unauth, len, seed }),
         1 => any::<u8>().prop_map(|which| Ev::ConnEvent { which }),
         1 => any::<u8>().prop_map(|key_sel| Ev::NewConnection { key_sel }),
